@@ -321,6 +321,14 @@ func (fr *frame) branch(c *Term, why string) bool {
 		panic(pathAbort{"speculate", "branch during speculation"})
 	}
 	p.stats.Branches++
+	if !p.replaying() && forkStats {
+		p.h.mu.Lock()
+		if p.h.res.ForkSites == nil {
+			p.h.res.ForkSites = map[string]int{}
+		}
+		p.h.res.ForkSites[fr.fn.String()+" ("+why+")"]++
+		p.h.mu.Unlock()
+	}
 	if !i.eng.Deadline.IsZero() && time.Now().After(i.eng.Deadline) {
 		panic(pathAbort{"budget", "wall-clock deadline reached"})
 	}
@@ -618,6 +626,7 @@ type HarnessResult struct {
 	Wall            time.Duration
 	SampleInputs    [][]ReplayValue
 	Fallbacks       map[string]int
+	ForkSites       map[string]int
 }
 
 type harnessRun struct {
@@ -1015,3 +1024,5 @@ func (h *harnessRun) noteFallback(who string) {
 	h.res.Fallbacks[who]++
 	h.mu.Unlock()
 }
+
+var forkStats = os.Getenv("GOSYM_FORKSTATS") != ""
